@@ -351,12 +351,12 @@ pub(crate) fn compare<S: HK>(c: &C<S>, e: &G, nkeys: usize) {
     // --- access-order deque: well-formed, exactly the residents' nodes, in the model's recency order
     let (nodes, an, ok) = dq::walk::<KeyHashDate<u8>, MAXN>(&c.deques.probation);
     chk!(ok, "C08: access-order deque is not a well-formed list");
-    chk!(an == e.ao_n, "C08,C11: access-order deque length != residents (ghost or missing node)");
+    chk!(an == e.ao_n, "C08,C11,C07: access-order deque length != residents (ghost or missing node)");
     let mut i = 0;
     while i < MAXN {
         if i < e.ao_n && i < an {
             let k = e.ao[i] as usize;
-            chk!(k < MAXN && nodes[i] == pao[k], "C12: recency order differs from the model");
+            chk!(k < MAXN && nodes[i] == pao[k], "C12,C15: recency order differs from the model (only insert/update/get-hit change it)");
         }
         i += 1;
     }
@@ -364,7 +364,7 @@ pub(crate) fn compare<S: HK>(c: &C<S>, e: &G, nkeys: usize) {
     // --- write-order deque
     let (wnodes, wn, wok) = dq::walk::<KeyDate<u8>, MAXN>(&c.deques.write_order);
     chk!(wok, "C08: write-order deque is not a well-formed list");
-    chk!(wn == e.wo_n, "C08,C11,C05: write-order deque length != residents (iff ttl)");
+    chk!(wn == e.wo_n, "C08,C11,C05,C07,C03: write-order deque length != residents (iff ttl): a stale node later expires a re-inserted key by name");
     let mut i = 0;
     while i < MAXN {
         if i < e.wo_n && i < wn {
